@@ -414,6 +414,9 @@ func runC12(c *Ctx) error {
 			return err
 		}
 	}
+	if err := c12TableRefresh(c); err != nil {
+		return err
+	}
 	// invalid paths: non-zero ends, zero inner labels; any outcome but a panic, same as the model
 	c.CoqSetup("Prelude SeqCorr SwitchLabel SwitchLabelCorr", "c12_bcase", "c12_bok")
 	for i, n := 0, c.Pick(150, 1500); i < n; i++ {
